@@ -451,6 +451,11 @@ def _count_blind(ctx, us, items):
             [(f"exclusion '{cat}'", rs.And(cond, us.rs.member(fr))) for cond, fr, cat in items]
     bools, rels = rs.variables(*[f for _, f in forms])
     pev = [k for k in rels if k[1] == "percent_expected_vote"]
+    if len(pev) != 1 and any(not o.ok for o in ctx.obs):
+        # the threshold comparison itself has changed and is already reported (R4.sibling): "below the threshold" has no reading here
+        ctx.note("C10.R8.count-blind not evaluated: the unit split does not compare percent_expected_vote with the threshold in the documented "
+                 "form (reported by another rule of this check)")
+        return
     if len(pev) != 1:
         raise AnalysisError(f"{us.f.where()}: the unit split compares percent_expected_vote with {len(pev)} bounds, expected the threshold only")
 
